@@ -6,9 +6,17 @@ import random
 import re
 
 A = 'pydoctor/astbuilder.py'
-DEFAULTS = ['1', "'s'", 'None', '(1, 2)', 'a.b', '-1', '[]', 'x or y', "'\\x1f'", "'tab\\there'", "'\\x0b\\x0c'", "b'\\x1f'", "'<&>'"]
+DEFAULTS = ['1', "'s'", 'None', '(1, 2)', 'a.b', '-1', '[]', 'x or y', "'\\x1f'", "'tab\\there'", "'\\x0b\\x0c'", "b'\\x1f'", "'<&>'",
+            # longer than any line-length option; patterns the regular-expression colorizer has no special case for
+            repr('long text ' * 12), '[' + ', '.join(str(i) for i in range(100, 140)) + ']', "re.compile('a+b|c')",
+            "re.compile('(<)?\\\\w+(?(1)>)')", "re.compile('[a-z]+$', re.I)",
+            # rendered through astor (which wraps long lines)
+            '[i * 1000000 for i in range(3) if i % 7 == 3 or i % 11 == 5 or i % 13 == 7 or i > 100000000000]',
+            'x < y < 100000000000000000 < 200000000000000000 < 300000000000000000 < 400000000000000000000',
+            # known findings (recognised by their specific witness, see _check)
+            "'non\xa0breaking'", '(1,)', '1e999']
 ANNS = ['int', "'str'", 'List[int]', 'None', 'a.B', "Literal['r', 'w']", "t.Literal['r']", "typing_extensions.Literal['x y']",
-        "'None'", "List['a.B']", "'List[int]'"]
+        "'None'", "List['a.B']", "'List[int]'", 't.Tuple[()]', 't.Dict[str, t.Tuple[int, int, int, int, int, int, int, int, int, int, int, int, int, int, int, int, int, int, int]]']
 
 
 def _layouts(maxn):
@@ -67,8 +75,11 @@ def _src(layout, ret, rnd):
 def _cases(tier, seed):
     rnd = random.Random(seed)
     maxn = 3 if tier == 'quick' else 4
-    for lay in _layouts(maxn):
+    for k, lay in enumerate(_layouts(maxn)):
         yield {'src': _src(lay, rnd.choice([None, 'None', 'int', "'C'"]), rnd)}
+        # the same layouts as methods, static methods and class methods (a definition in a class body)
+        if tier == 'thorough' or k % 3 == seed % 3:
+            yield {'src': _src(lay, rnd.choice([None, 'None', 'int', "'C'"]), rnd), 'scope': ('method', 'static', 'classmethod')[k % 3]}
     for _ in range(100 if tier == 'quick' else 2000):
         lays = list(itertools.islice(_layouts(4), 4000))
         a, b = rnd.choice(lays), rnd.choice(lays)
@@ -87,18 +98,33 @@ def _cases(tier, seed):
         if ok and len(merged) <= 8:
             yield {'src': _src(merged, rnd.choice([None, 'None', 'int']), rnd)}
     yield {'src': 'from typing import overload\n@overload\ndef f(a: int) -> int: ...\n@overload\ndef f(a: str, b=1) -> str: ...\ndef f(a, b=2):\n    pass\n', 'overloads': True}
+    for scope in ('method', 'static', 'classmethod'):
+        yield {'src': '@overload\ndef f(a: int) -> int: ...\n@overload\ndef f(a: str, b=1) -> str: ...\ndef f(a, b=2):\n    pass\n', 'overloads': True, 'scope': scope}
+        yield {'src': '@t.overload\ndef f(a: int) -> int: ...\n@t.overload\ndef f(a: str, b=1) -> str: ...\ndef f(a, b=2):\n    pass\n', 'overloads': True, 'scope': scope}
     # the decorator spelled through the module or an alias of it, the bare name not being imported
     for spelled, imp in (('typing.overload', 'import typing'), ('t.overload', 'import typing as t'), ('typing_extensions.overload', 'import typing_extensions')):
         yield {'src': f'@{spelled}\ndef f(a: int) -> int: ...\n@{spelled}\ndef f(a: str, b=1) -> str: ...\ndef f(a, b=2):\n    pass\n',
                'overloads': True, 'prelude': f'from typing import List, Literal\n{imp}\n'}
 
 
-def _sig_of_source(src):
+def _sig_of_source(src, in_class=False):
     ns = {}
-    pre = ('from typing import List, overload, Literal\nimport typing\nimport typing as t\nimport typing_extensions\n'
+    pre = ('from typing import List, overload, Literal\nimport typing\nimport typing as t\nimport typing_extensions\nimport re\n'
            'class a:\n    class B: pass\n    b = 0\nx = y = 0\n')
     exec(pre + src, ns)
+    if in_class:
+        f = ns['K'].__dict__['f']
+        return inspect.signature(getattr(f, '__func__', f))
     return inspect.signature(ns['f'])
+
+
+def _scoped(src, scope):
+    """the definition(s) moved into a class body; static / class methods get their decorator closest to the def"""
+    if scope is None:
+        return src
+    deco = {'method': '', 'static': '@staticmethod\n', 'classmethod': '@classmethod\n'}[scope]
+    body = re.sub(r'(?m)^def f\(', deco + 'def f(', src)
+    return 'class K:\n' + ''.join('    ' + l + '\n' for l in body.splitlines())
 
 
 def _describe(sig):
@@ -136,18 +162,48 @@ def _unstring(node):
     return ast.dump(U().visit(ast.parse(ast.unparse(node), mode='eval').body))
 
 
+NEUTRAL = (('nbsp', '\xa0', ' '), ('one_tuple', '(1,)', '(1, 2)'), ('float_inf', '1e999', '1.5'))
+
+
 def _check(case):
+    """the check proper, plus the recognition of listed findings: a failure carries the flag of a finding only if the source has
+    that specific feature and the failure disappears once the feature alone is replaced by something harmless"""
+    r = _check0(case)
+    if r is None:
+        return None
+    for flag, feature, harmless in NEUTRAL:
+        r[flag] = False
+    present = [n for n in NEUTRAL if n[1] in case['src']]
+    clean = case['src']
+    for flag, feature, harmless in present:
+        clean = clean.replace(feature, harmless)
+    if present and _check0(dict(case, src=clean)) is None:
+        for flag, feature, harmless in present:
+            # with only this feature put back the failure is there again
+            only = case['src']
+            for flag2, feature2, harmless2 in present:
+                if flag2 != flag:
+                    only = only.replace(feature2, harmless2)
+            if len(present) == 1 or _check0(dict(case, src=only)) is not None:
+                r[flag] = True
+                r['class'] = r.get('class', '') + '+' + flag
+    return r
+
+
+def _check0(case):
     from replay import fixtures
     from pydoctor.templatewriter import pages
     from pydoctor.stanutils import flatten_text
-    src = case['src']
-    prelude = case.get('prelude', 'from typing import List, overload, Literal\nimport typing as t\nimport typing_extensions\n')
+    scope = case.get('scope')
+    src = _scoped(case['src'], scope)
+    prelude = case.get('prelude', 'from typing import List, overload, Literal\nimport typing as t\nimport typing_extensions\nimport re\n')
     system = fixtures.build_system([('sigmod', prelude + src, False)])
-    f = system.allobjects['sigmod.f']
+    f = system.allobjects['sigmod.K.f' if scope else 'sigmod.f']
     try:
-        want = _sig_of_source(src)
+        want = _sig_of_source(src, bool(scope))
     except SyntaxError:
         return None
+    src = case['src']
     got = f.signature
     if got is None:
         return {'observed': 'no signature', 'required': str(want)}
